@@ -1115,7 +1115,9 @@ class Server:
 
     @ConnectionConditions(ConnectionConditions.login_required)
     async def pwd(self, connection, rest):
-        code, info = "257", f'"{connection.current_directory}"'
+        # RFC 959: the directory is enclosed in double quotes, quotes inside it are doubled
+        directory = str(connection.current_directory).replace('"', '""')
+        code, info = "257", f'"{directory}"'
         connection.response(code, info)
         return True
 
